@@ -1221,6 +1221,8 @@ def bind_params(self, c, fnode, args, kwargs, st):
 
 def iter_to_val(self, v, t, st):
     v = self.iter_value(v, st)
+    if isinstance(v, tuple) and v and v[0] == "filtered" and isinstance(t, Seq):
+        return self.filtered_seq(v, st)
     if isinstance(v, View) and isinstance(t, Seq):
         return self.materialise(v, st, t.elt)
     return v
